@@ -187,6 +187,17 @@ CHECKS = {
             "library encoder, the library decoder and the independent reference decoder.",
             "Trusted: vf/catalogue.py (our transcription of the documented shapes), vf/refcodec.py. Enumeration-valued attributes keep the documented literal.",
             "DESIGN.md 4/C09"),
+    "C06": ("exploration",
+            "runtime monitor: recording probes below the protocol group and at the top of stacks assembled from the library's own layer helpers; observed counts/stanzas compared with an ownership rule (package of the entity class) for all 16 module selections x with/without encryption layers",
+            "For each of the 16 selections of groups/media/privacy/profiles and both wirings (protocol group alone / below it the "
+            "axolotl control+send+receive layers) 33 sendable entity kinds plus generated message entities of every payload "
+            "kind are sent from the top, and 32 server-initiated stanza kinds (messages text/media by media type, receipts, acks, "
+            "presence, chat state, picture/status/contact/group notifications, calls, ib, success/failure/stream error/features) "
+            "are injected at the bottom with generated values (25 draws per cell quick, 500 thorough). Exactly one stanza equal "
+            "to the entity's serialisation / one entity of the documented class re-serialising to the stanza is required when "
+            "the owning module is selected, nothing and no exception otherwise. The kind x selection x wiring matrix is complete; values are sampled.",
+            "Trusted: the ownership rule (package defining the entity class) and vf/catalogue.py. iq replies are C08's, encrypted stanzas C03's.",
+            "DESIGN.md 4/C06"),
 }
 
 NOT_BUILT = "check not built yet in this session (planned, see DESIGN.md section 4)"
